@@ -483,4 +483,283 @@ theorem reachable_step {s : St} (op : Op) (h : Reachable s) : Reachable (step s 
   exact ⟨ops ++ [op], by rw [run_append]; rfl⟩
 
 
+/-! ### finer facts used by the property theorems -/
+
+/-- what a successful `setCore s (some v)` leaves untouched / produces -/
+theorem setCore_some_fields {s : St} {v : List Rat} (h : (setCore s (some v)).2 = none) :
+    let s' := (setCore s (some v)).1
+    s'.atcorenums = some v ∧ s'.charge = none ∧ s'.mo = s.mo ∧ s'.spinpol = s.spinpol ∧
+    s'.atnums = s.atnums ∧ s'.atcoords = s.atcoords ∧ s'.atgradient = s.atgradient ∧
+    s'.atfrozen = s.atfrozen ∧ s'.atmasses = s.atmasses ∧
+    (∀ n, s.nelec = some n → s'.nelec = some n) ∧ (s.charge = none → s'.nelec = s.nelec) := by
+  simp only [setCore] at h ⊢
+  split
+  · split
+    · rename_i hc
+      simp only [hc] at *
+      simp
+    · split
+      · rename_i hc hn; simp_all
+      · rename_i hc _ n hn; simp_all
+  · rename_i hs; simp [hs] at h
+
+/-- the value returned by the `atcorenums` getter, in closed form -/
+theorem getCore_val (s : St) :
+    (getCore s).1 =
+      match s.atcorenums, s.atnums with
+      | none, some z => if shapeOk s z.length then some (toFloat z) else none
+      | _, _ => s.atcorenums := by
+  rcases getCore_cases s with ⟨h, hc⟩ | ⟨z, hc, hz, ⟨hok, h⟩ | ⟨e, he, h⟩⟩
+  · rw [h]; simp only
+    rcases hc with hc | hc
+    · cases h1 : s.atcorenums with
+      | none => exact absurd h1 hc
+      | some a => rfl
+    · rw [hc]; cases s.atcorenums <;> rfl
+  · rw [h, hc, hz]; simp only
+    rw [setCore_some_ok hok]
+    have : shapeOk s z.length = true := by
+      cases hs : shapeOk s z.length with
+      | true => rfl
+      | false => simp [setCore, toFloat, hs] at hok
+    simp [this]
+  · rw [h, hc, hz]; simp only
+    have : shapeOk s z.length = false := by
+      cases hs : shapeOk s z.length with
+      | false => rfl
+      | true =>
+        exfalso
+        simp only [setCore, toFloat, List.length_map, hs, if_true] at he
+        split at he
+        · simp at he
+        · split at he <;> simp at he
+    simp [this]
+
+theorem getCore_val_congr {s s' : St} (h1 : s'.atcorenums = s.atcorenums) (h2 : s'.atnums = s.atnums)
+    (h3 : ∀ g, lenOf s' g = lenOf s g) : (getCore s').1 = (getCore s).1 := by
+  rw [getCore_val, getCore_val, h1, h2]
+  cases s.atcorenums <;> cases s.atnums <;> simp [shapeOk_congr h3]
+
+theorem getCore_mo (s : St) : (getCore s).2.1.mo = s.mo := by
+  rcases getCore_cases s with ⟨h, _⟩ | ⟨z, _, _, ⟨hok, h⟩ | ⟨e, he, h⟩⟩ <;> rw [h]
+  · exact (setCore_some_fields hok).2.2.1
+  · simp only; rw [setCore_some_err he]
+
+theorem getCore_nelec_some {s : St} {n : Rat} (h : getNelec s = some n) :
+    getNelec (getCore s).2.1 = some n := by
+  rcases getCore_cases s with ⟨h', _⟩ | ⟨z, _, _, ⟨hok, h'⟩ | ⟨e, he, h'⟩⟩ <;> rw [h']
+  · exact h
+  · simp only
+    have f := setCore_some_fields hok
+    simp only at f
+    unfold getNelec at h ⊢
+    rw [f.2.2.1]
+    cases hm : s.mo with
+    | some m => rw [hm] at h; exact h
+    | none => rw [hm] at h; simp only at h ⊢; exact f.2.2.2.2.2.2.2.2.2.1 n h
+  · simp only; rw [setCore_some_err he]; exact h
+
+/-- the state after the getter is a fixed point of the getter -/
+theorem getCore_getCore (s : St) : getCore (getCore s).2.1 = getCore s ∨
+    getCore (getCore s).2.1 = ((getCore s).1, (getCore s).2.1, none) := by
+  rcases getCore_cases s with ⟨h, hc⟩ | ⟨z, hc, hz, ⟨hok, h⟩ | ⟨e, he, h⟩⟩
+  · left; rw [h]; exact h
+  · right; rw [h]; simp only
+    have := setCore_some_ok hok
+    unfold getCore; rw [this]
+  · left; rw [h]; simp only; rw [setCore_some_err he]; rw [setCore_some_err he] at h; exact h
+
+theorem getCore_arrays (s : St) :
+    let s1 := (getCore s).2.1
+    s1.atnums = s.atnums ∧ s1.atcoords = s.atcoords ∧ s1.atgradient = s.atgradient ∧
+    s1.atfrozen = s.atfrozen ∧ s1.atmasses = s.atmasses ∧ s1.spinpol = s.spinpol := by
+  rcases getCore_cases s with ⟨h, _⟩ | ⟨z, _, _, ⟨hok, h⟩ | ⟨e, he, h⟩⟩ <;> rw [h] <;> simp only
+  · simp
+  · have f := setCore_some_fields hok
+    simp only at f
+    exact ⟨f.2.2.2.2.1, f.2.2.2.2.2.1, f.2.2.2.2.2.2.1, f.2.2.2.2.2.2.2.1, f.2.2.2.2.2.2.2.2.1, f.2.2.2.1⟩
+  · rw [setCore_some_err he]; simp
+
+/-- under agreement the lazy default does not change `natom` -/
+theorem natom_getCore {s : St} (ha : Agree s) : natom (getCore s).2.1 = natom s := by
+  rcases getCore_cases s with ⟨h, _⟩ | ⟨z, hc, hz, ⟨hok, h⟩ | ⟨e, he, h⟩⟩
+  · rw [h]
+  · have ha' := agree_getCore ha
+    have f := getCore_arrays s
+    simp only at f
+    have hl : lenOf s .atnums = some z.length := by simp [lenOf, hz]
+    have hl' : lenOf (getCore s).2.1 .atnums = some z.length := by simp [lenOf, f.1, hz]
+    rw [natom_eq_of_agree ha hl, natom_eq_of_agree ha' hl']
+  · rw [h]; simp only; rw [setCore_some_err he]
+
+
+/-! ### fixed points of the getters, observables, default core charges -/
+
+/-- the `atcorenums` getter applied to the state it left behind returns the same triple -/
+theorem getCore_fix (s : St) :
+    getCore (getCore s).2.1 = ((getCore s).1, (getCore s).2.1, (getCore s).2.2) := by
+  rcases getCore_cases s with ⟨h, _⟩ | ⟨z, _, _, ⟨hok, h⟩ | ⟨e, he, h⟩⟩
+  · rw [h]; exact h
+  · rw [h]; simp only
+    have := setCore_some_ok hok
+    unfold getCore; rw [this]
+  · rw [h]; simp only; rw [setCore_some_err he]; rw [setCore_some_err he] at h; exact h
+
+theorem getCharge_fix (s : St) :
+    getCharge (getCharge s).2.1 = ((getCharge s).1, (getCharge s).2.1, (getCharge s).2.2) := by
+  rw [getCharge_state]
+  have hf := getCore_fix s
+  unfold getCharge
+  rw [hf]
+  rcases hg : getCore s with ⟨ac, s1, _ | e⟩
+  · simp only; split <;> rfl
+  · rfl
+
+/-- the lazy default of the core charges changes no observable, provided the electron count reads
+the same before and after (always the case with orbitals present, or when `_nelec` is stored) -/
+theorem obs_getCore {s : St} (ha : Agree s) (hn : getNelec (getCore s).2.1 = getNelec s) :
+    obs (getCore s).2.1 = obs s := by
+  have hfix := getCore_fix s
+  have hcfix := getCharge_fix s
+  rw [getCharge_state] at hcfix
+  have harr := getCore_arrays s
+  simp only at harr
+  have hmo := getCore_mo s
+  have hnat := natom_getCore ha
+  simp only [obs, Obs.mk.injEq]
+  refine ⟨?_, hn, ?_, ?_, hnat, harr.1, harr.2.1, harr.2.2.1, harr.2.2.2.1, harr.2.2.2.2.1, ?_, ?_⟩
+  · rw [hcfix]
+  · simp [getSpinpol, hmo, harr.2.2.2.2.2]
+  · rw [hfix]
+  · rw [hmo]
+  · rw [hcfix, hfix]
+
+/-- the stored core charges are absent or equal to the atomic numbers -/
+def CoreDef (s : St) : Prop := s.atcorenums = none ∨ s.atcorenums = s.atnums.map toFloat
+
+/-- operations that neither assign core charges explicitly nor re-assign `atnums` on an existing
+object (construction with `atnums` is fine) -/
+def usesDefault : Op → Bool
+  | .setCore (some _) => false
+  | .setAtnums _ => false
+  | .construct a => a.atcorenums.isNone
+  | _ => true
+
+/-- every operation other than an explicit `atcorenums = <array>` (or construction with one) -/
+def notExplicit : Op → Bool
+  | .setCore (some _) => false
+  | .construct a => a.atcorenums.isNone
+  | _ => true
+
+theorem coreDef_getCore {s : St} (h : CoreDef s) : CoreDef (getCore s).2.1 := by
+  rcases getCore_cases s with ⟨h', _⟩ | ⟨z, hc, hz, ⟨hok, h'⟩ | ⟨e, he, h'⟩⟩ <;> rw [h'] <;> simp only
+  · exact h
+  · right
+    have f := setCore_some_fields hok
+    simp only at f
+    rw [f.1, f.2.2.2.2.1, hz]; rfl
+  · rw [setCore_some_err he]; exact h
+
+theorem coreDef_congr {s s' : St} (h : CoreDef s) (h1 : s'.atcorenums = s.atcorenums)
+    (h2 : s'.atnums = s.atnums) : CoreDef s' := by
+  unfold CoreDef; rw [h1, h2]; exact h
+
+theorem coreDef_setNelec {s : St} (v) (h : CoreDef s) : CoreDef (setNelec s v).1 := by
+  unfold setNelec; split
+  · exact coreDef_congr h rfl rfl
+  · exact h
+
+theorem coreDef_setSpinpol {s : St} (v) (h : CoreDef s) : CoreDef (setSpinpol s v).1 := by
+  unfold setSpinpol; split
+  · exact coreDef_congr h rfl rfl
+  · exact h
+
+theorem coreDef_setCharge {s : St} (c) (h : CoreDef s) : CoreDef (setCharge s c).1 := by
+  have h1 := coreDef_getCore h
+  rcases setCharge_cases s c with ⟨_, hs⟩ | ⟨_, _, hs⟩ | ⟨a, _, _, hs⟩ <;> rw [hs]
+  · exact h1
+  · exact coreDef_congr h1 rfl rfl
+  · exact coreDef_setNelec _ h1
+
+theorem coreDef_andThen {r : St × Option Err} {f : St → St × Option Err} (h : CoreDef r.1)
+    (hf : ∀ s, CoreDef s → CoreDef (f s).1) : CoreDef (andThen r f).1 := by
+  unfold andThen; split
+  · exact h
+  · exact hf _ h
+
+theorem coreDef_construct {a s : St} (ha : a.atcorenums = none) (h : construct a = .ok s) : CoreDef s := by
+  unfold construct at h
+  split at h
+  · have : CoreDef (postInit a).1 := by
+      unfold postInit
+      refine coreDef_andThen (coreDef_andThen (coreDef_andThen ?_ ?_) ?_) ?_
+      · unfold replayCore; rw [ha]; exact Or.inl ha
+      · intro s h; unfold replayCharge; split
+        · exact coreDef_setCharge _ h
+        · exact h
+      · intro s h; unfold replayNelec; split
+        · exact coreDef_setNelec _ h
+        · exact h
+      · intro s h; unfold replaySpinpol; split
+        · exact coreDef_setSpinpol _ h
+        · exact h
+    rcases hp : postInit a with ⟨s', _ | e⟩
+    · rw [hp] at h this; simp at h; subst h; exact this
+    · rw [hp] at h; simp at h
+  · simp at h
+
+theorem coreDef_step {s : St} (op : Op) (hop : usesDefault op = true) (h : CoreDef s) :
+    CoreDef (step s op).1 := by
+  cases op with
+  | construct a =>
+    simp only [step]
+    cases hc : construct a with
+    | ok s' =>
+      have : a.atcorenums = none := by simpa [usesDefault] using hop
+      exact coreDef_construct this hc
+    | error e => exact h
+  | setArr f v =>
+    simp only [step, setArr]
+    cases v with
+    | none => cases f <;> exact coreDef_congr h rfl rfl
+    | some a => simp only; split
+                · cases f <;> exact coreDef_congr h rfl rfl
+                · exact h
+  | setAtnums v => simp [usesDefault] at hop
+  | setCore v =>
+    cases v with
+    | none => left; simp [step, setCore]
+    | some a => simp [usesDefault] at hop
+  | setCharge v => exact coreDef_setCharge v h
+  | setNelec v => exact coreDef_setNelec v h
+  | setSpinpol v => exact coreDef_setSpinpol v h
+  | setMo m => exact coreDef_congr h rfl rfl
+  | getCore => exact coreDef_getCore h
+  | getCharge => simp only [step]; rw [getCharge_state]; exact coreDef_getCore h
+  | getNelec => exact h
+  | getSpinpol => exact h
+  | getNatom => exact h
+
+theorem coreDef_run {s : St} (ops : List Op) (hops : ∀ op ∈ ops, usesDefault op = true) (h : CoreDef s) :
+    CoreDef (run s ops) := by
+  induction ops generalizing s with
+  | nil => exact h
+  | cons op t ih =>
+    exact ih (fun o ho => hops o (List.mem_cons_of_mem _ ho)) (coreDef_step op (hops op (by simp)) h)
+
+theorem coreDef_read {s : St} (ha : Agree s) (h : CoreDef s) :
+    (getCore s).1 = s.atnums.map toFloat := by
+  rw [getCore_val]
+  cases hc : s.atcorenums with
+  | some a =>
+    rcases h with h | h
+    · rw [hc] at h; cases h
+    · rw [hc] at h; cases hz : s.atnums <;> simp [hz] at h ⊢ <;> exact h
+  | none =>
+    cases hz : s.atnums with
+    | none => rfl
+    | some z =>
+      have hl : lenOf s .atnums = some z.length := by simp [lenOf, hz]
+      simp [shapeOk, natom_eq_of_agree ha hl]
+
 end Iodata.IOD
